@@ -88,6 +88,18 @@ def grid_case(ctx, idx, rng):
       ctx.violation('law:quantize_of_dequantize_not_identity',
                     {'bits': bits, 'symmetric': sym, 'data_dtype': np.dtype(code_dt).name},
                     dict(tag, n_bad=int(np.sum(rq != codes)), zp=z0))
+  # data beyond the range must be clipped into the (narrow when symmetric) code range
+  xdt0 = np.asarray(sc).dtype if np.asarray(sc).dtype.kind == 'f' else np.float32
+  span = max(abs(float(mn)), abs(float(mx)), step)
+  with np.errstate(all='ignore'):
+    xo = (rng.uniform(-4, 4, size=(1, 129)) * span).astype(xdt0)
+    xo = np.concatenate([xo, np.array([[-(qmax + 3) * step, -(qmax + 1) * step, -qmax * step, (qmax + 2) * step]], dtype=xdt0)], axis=1)
+  xo = xo[np.isfinite(xo)].reshape(1, -1)
+  if xo.size:
+    qo = u.uniform_quantize(xo, p)
+    ctx.count('out_of_range_values_checked', xo.size)
+    if qo.min() < lo_q or qo.max() > qmax:
+      ctx.violation('law:code_out_of_range', {'bits': bits, 'symmetric': sym, 'input': 'beyond_range'}, dict(tag, got=[int(qo.min()), int(qo.max())], allowed=[lo_q, qmax]))
   # random in-range data
   xdt = np.asarray(sc).dtype if np.asarray(sc).dtype.kind == 'f' else np.float32
   x = rng.uniform(min(float(mn), 0), max(float(mx), 0), size=(1, 257)).astype(xdt)
